@@ -97,6 +97,8 @@ func rowAny(r []bool) bool {
 
 // ---------------------------------------------------------------- C01
 
+var seenHookExpr = map[string]bool{}
+
 func c01Check(k *kase, withCorr bool) *failure {
 	t := parsePrefix(k.Tree)
 	r := implSat(k.Expr, k.Allowed)
@@ -130,6 +132,11 @@ func c01Check(k *kase, withCorr bool) *failure {
 	}
 	if withCorr {
 		correspond("T "+t.prefix()+" "+matrixString(m), fmt.Sprint(r.ok), "model expansion/verdict under the implementation's own single-term verdicts vs Satisfies", k)
+		if !seenHookExpr[k.Expr] && len(seenHookExpr) < 4000 {
+			// the same expression comes with many allowed lists: its tree and its expansion are compared once
+			seenHookExpr[k.Expr] = true
+			hookCorrespond(k.Expr, k, false, true, true)
+		}
 	}
 	if r.ok != want {
 		return &failure{Stream: "oracle", What: "Satisfies differs from the Boolean value of the expression under the single-term verdicts", Case: k, Impl: fmt.Sprint(r.ok), Expected: fmt.Sprint(want)}
@@ -347,6 +354,10 @@ func c06Check(k *kase, withCorr bool) *failure {
 			return "ok " + strings.Join(uniqSorted(strings.Split(s[3:], ",")), ",")
 		}
 		correspondNorm("E "+hx(k.Expr), r.String(), "ExtractLicenses as a set: model vs implementation", k, norm)
+		if !seenHookExpr[k.Expr] && len(seenHookExpr) < 4000 {
+			seenHookExpr[k.Expr] = true
+			hookCorrespond(k.Expr, k, false, false, true)
+		}
 	}
 	if len(uniqSorted(r.list)) != len(r.list) {
 		return &failure{Stream: "oracle", What: "ExtractLicenses returned a duplicate", Case: k, Impl: joinShow(r.list)}
